@@ -35,6 +35,9 @@ pub struct Cfg {
     /// receiver configured with a 10-byte object cache (a third pending block is refused)
     #[serde(default)]
     pub small_cache: bool,
+    /// (with crafted_fdt) the FDT announces the Content-MD5 of other bytes: a stale or wrong FDT
+    #[serde(default)]
+    pub wrong_md5: bool,
     /// replace the sender's FDT by a harness-written instance WITHOUT FEC-OTI attributes, so that
     /// the OTI only arrives in-band after the object has been attached to the FDT
     #[serde(default)]
@@ -73,7 +76,7 @@ pub fn prepare(c: &Cfg) -> Result<Prepared, String> {
         let exp = unix_to_ntp_secs(EPOCH_2027 + 3600).to_string();
         let mut f = crate::fdtxml::FileX::new(&toi.to_string(), &o.location).attr("Content-Length", &c.len.to_string()).attr("Transfer-Length", &tl.to_string()).attr("Content-Type", "a/b");
         if c.md5 {
-            f = f.attr("Content-MD5", &md5_b64(&o.content()));
+            f = f.attr("Content-MD5", &if c.wrong_md5 { md5_b64(b"not the object") } else { md5_b64(&o.content()) });
         }
         if c.cenc != 0 {
             f = f.attr("Content-Encoding", ["null", "zlib", "deflate", "gzip"][c.cenc as usize]);
@@ -240,6 +243,10 @@ pub fn body(p: &Prepared, cfg: &Cfg, ch: &mut Chooser) -> Obs {
             obs.violation = Some((format!("C09/writes-not-a-prefix{}", ctx), format!("writer log [{}]: {} bytes written are not a prefix of the {}-byte object", w.short(), d.len(), p.content.len())));
             return obs;
         }
+        if w.is_complete() && cfg.wrong_md5 && cfg.md5 {
+            obs.violation = Some((format!("C09/complete-despite-md5-mismatch{}", ctx), format!("writer log [{}]: the FDT announces another Content-MD5 and the writer asks for the check, yet the object was reported complete", w.short())));
+            return obs;
+        }
         if w.is_complete() {
             obs.completes += 1;
             if d != p.content && (authentic || cfg.md5) {
@@ -293,18 +300,21 @@ fn configs(thorough: bool) -> Vec<Cfg> {
                     }
                     if cenc == 0 && len > 0 && count == 1 {
                         // malformed and cache-exhausting histories (the writer is open when the receiver gives up)
-                        v.push(Cfg { scheme, e, b, parity, len, cenc, inband_fti, count, md5, order: 8, crafted_fdt: false, receive_twice: false, small_cache: false });
+                        v.push(Cfg { scheme, e, b, parity, len, cenc, inband_fti, count, md5, order: 8, crafted_fdt: false, receive_twice: false, small_cache: false, wrong_md5: false });
                         for order in [0u8, 1, 7] {
-                            v.push(Cfg { scheme, e, b, parity, len: len + 5 * e as usize * b as usize, cenc, inband_fti, count, md5, order, crafted_fdt: false, receive_twice: false, small_cache: true });
+                            v.push(Cfg { scheme, e, b, parity, len: len + 5 * e as usize * b as usize, cenc, inband_fti, count, md5, order, crafted_fdt: false, receive_twice: false, small_cache: true, wrong_md5: false });
                         }
                     }
                     for order in 0..7u8 {
-                        v.push(Cfg { scheme, e, b, parity, len, cenc, inband_fti, count, md5, order, crafted_fdt: false, receive_twice: false, small_cache: false });
+                        v.push(Cfg { scheme, e, b, parity, len, cenc, inband_fti, count, md5, order, crafted_fdt: false, receive_twice: false, small_cache: false, wrong_md5: false });
                         if count == 2 && order <= 2 {
-                            v.push(Cfg { scheme, e, b, parity, len, cenc, inband_fti, count, md5, order, crafted_fdt: false, receive_twice: true, small_cache: false });
+                            v.push(Cfg { scheme, e, b, parity, len, cenc, inband_fti, count, md5, order, crafted_fdt: false, receive_twice: true, small_cache: false, wrong_md5: false });
+                        }
+                        if inband_fti && md5 && order <= 2 && len > 0 {
+                            v.push(Cfg { scheme, e, b, parity, len, cenc, inband_fti, count, md5, order, crafted_fdt: true, receive_twice: false, small_cache: false, wrong_md5: true });
                         }
                         if inband_fti && order <= 4 && (thorough || order != 1) {
-                            v.push(Cfg { scheme, e, b, parity, len, cenc, inband_fti, count, md5, order, crafted_fdt: true, receive_twice: false, small_cache: false });
+                            v.push(Cfg { scheme, e, b, parity, len, cenc, inband_fti, count, md5, order, crafted_fdt: true, receive_twice: false, small_cache: false, wrong_md5: false });
                         }
                     }
                 }
